@@ -126,7 +126,13 @@ def evaluate(ck, vecs, h):
             ir.get("parse_error", ""), ir.get("run_error", ""))
         if v["mbquirk"]:
             ck.notes["bash_skipped_mbquirk"] = ck.notes.get("bash_skipped_mbquirk", 0) + 1
-        ok = verdict(v, "read builtin (%s)" % kind, script, spec, dev, impl, None if (v["mbquirk"] or v.get("corrupt")) else br["out"])
+        bash = None if (v["mbquirk"] or v.get("corrupt")) else br["out"]
+        if bash is not None and "\x01" in bash:
+            # bash leaked its internal escape byte (no input contains \001): e.g. `read x` on '\  \ '
+            # gives <\001>; such an output is not a reference value
+            ck.notes["bash_skipped_ctlesc_leak"] = ck.notes.get("bash_skipped_ctlesc_leak", 0) + 1
+            bash = None
+        ok = verdict(v, "read builtin (%s)" % kind, script, spec, dev, impl, bash)
         if kind == "file" and v["nontrivial"]:
             ck.cov["distinct_nontrivial"] += 1
             if ok:
@@ -163,6 +169,7 @@ def run(ck):
                       "distinct_nontrivial = vectors whose line has an IFS delimiter or an escaped character")
     ck.assumptions += ["bash 5.2.15 in LC_ALL=C.utf8 as the reference shell",
                        "inputs that end in a lone backslash without -r are out of scope (bash leaks \\001 there)",
+                       "a bash output containing \\001 (leaked internal escape byte) is not used as reference (counted)",
                        "the direct ReadFields binding has no bash oracle of its own (same expected values as the builtin)"]
     for o in range(0, len(vecs), 60000):
         evaluate(ck, vecs[o:o + 60000], h)
